@@ -426,6 +426,9 @@ def late_edit_programs():
 
 def run(ctx):
     rep = ctx.rep
+    # 0. the default pass list composed on one module, then exported (ModulePipe.lean; module_pipeline_wf)
+    import modpipe
+    modpipe.run(ctx)
     rep.extra["rule"] = (
         "every package exported from: generated designs (3 styles), the repository's examples (all packages their main() exports), "
         "Series/MosStack/Wrapper over nser ranges and unit kinds, a sample-PDK compiled design; non-trivial = has at least one instance; "
